@@ -42,6 +42,18 @@ func (g *c12Gen) w(format string, a ...interface{}) {
 	g.b.WriteString(fmt.Sprintf(format, a...) + "\n")
 }
 
+// val: the value stored by the next write — mostly a fresh number, one time
+// in four a value of another kind (a property holding nil is still a property).
+var c12OddVals = []string{"nil", bn.KwFalse, "f()", "0", bn.KwTrue, "\"s\"", "0.5"}
+
+func (g *c12Gen) val() (string, gVal) {
+	if g.pick("valKind", 4) != 1 {
+		v := g.u()
+		return fmt.Sprint(v), gVal{n: v}
+	}
+	return c12OddVals[g.pick("oddVal", len(c12OddVals))], gVal{n: -1}
+}
+
 func (g *c12Gen) newObj(n int, nested bool) (*gObj, string) {
 	g.nextID++
 	o := &gObj{m: map[string]gVal{}, id: g.nextID}
@@ -58,9 +70,9 @@ func (g *c12Gen) newObj(n int, nested bool) (*gObj, string) {
 			o.m[k] = gVal{n: -1}
 			parts = append(parts, fmt.Sprintf("%s: [%d, %d]", k, a, b))
 		} else {
-			v := g.u()
-			o.m[k] = gVal{n: v}
-			parts = append(parts, fmt.Sprintf("%s: %d", k, v))
+			v, e := g.val()
+			o.m[k] = e
+			parts = append(parts, fmt.Sprintf("%s: %s", k, v))
 		}
 	}
 	return o, "{" + strings.Join(parts, ", ") + "}"
@@ -153,14 +165,14 @@ func (g *c12Gen) action() {
 		}
 	case 4, 5, 6: // write to a new or existing key
 		k := c12Keys[g.pick("key", len(c12Keys))]
-		v := g.u()
+		v, e := g.val()
 		if g.pick("viaFn", 4) == 0 {
 			k = "k"
-			g.w("setk(%s, %d);", x, v)
+			g.w("setk(%s, %s);", x, v)
 		} else {
-			g.w("%s.%s = %d;", x, k, v)
+			g.w("%s.%s = %s;", x, k, v)
 		}
-		ox.m[k] = gVal{n: v}
+		ox.m[k] = e
 		g.mutated(ox)
 	case 7, 8: // delete a present key
 		ks := g.keysOf(ox)
@@ -195,12 +207,12 @@ func (g *c12Gen) action() {
 		if g.pick("boxOrList", 2) == 0 {
 			// keep an object in an array element and reach it through the element
 			k := c12Keys[g.pick("key", len(c12Keys))]
-			v := g.u()
+			v, e := g.val()
 			g.w("box[0] = %s;", x)
 			g.w("%s = box[0];", y)
 			g.vars[y] = ox
-			g.w("box[0].%s = %d;", k, v)
-			ox.m[k] = gVal{n: v}
+			g.w("box[0].%s = %s;", k, v)
+			ox.m[k] = e
 			g.mutated(ox)
 			return
 		}
@@ -330,7 +342,7 @@ func (c *Ctx) c12Program(s *Sub, sub, src string, nt bool, labels ...string) {
 	}
 }
 
-var c12Small = map[string]int{"x": 2, "y": 2, "nested": 1, "arrval": 1, "sublen": 1, "len": 3, "key0": 2, "key": 2, "present": 2, "takeSub": 1, "viaFn": 2, "computed": 2}
+var c12Small = map[string]int{"valKind": 2, "oddVal": 2, "x": 2, "y": 2, "nested": 1, "arrval": 1, "sublen": 1, "len": 3, "key0": 2, "key": 2, "present": 2, "takeSub": 1, "viaFn": 2, "computed": 2}
 
 func TestC12(t *testing.T) {
 	Main(t, "C12", func(c *Ctx) {
